@@ -582,7 +582,7 @@ class SectorHooks(Hooks):
         if n == 'where' and len(args) == 3 and isinstance(args[0], (_Flipped, _Maybe)):
             return args[1] if args[0].pqv_truth() else args[2]
         if n in ('hstack', 'concatenate') and args and isinstance(args[0], (list, tuple)) and len(args[0]) == 2:
-            a, b = args[0]
+            a, b = [v.value if isinstance(v, ProbCell) and isinstance(v.value, Corr) else v for v in args[0]]
             zero = lambda v: isinstance(v, ProbCell) and isinstance(v.value, int) and v.value == 0
             if (zero(a) or zero(b)) and all(isinstance(v, Corr) or zero(v) for v in (a, b)):
                 # a half that is a constant zero vector of length n: that half is not filled
@@ -638,6 +638,11 @@ class SectorHooks(Hooks):
                     obj.z = value
             else:
                 obj.bad.append(f'{value!r} stored into the {half} half')
+            return None
+        if isinstance(obj, ProbCell) and isinstance(value, Corr) and isinstance(idx, SliceV) \
+                and idx.lo is None and idx.hi is None and idx.step is None:
+            # zeros(n) used as the buffer of one sector's correction: buf[:] = correction
+            obj.value = value
             return None
         if isinstance(obj, ProbCell):
             if isinstance(idx, _IdxSet):
